@@ -231,6 +231,8 @@ def H_identity(ctx, cfg):
         chunk = SArray.fresh(shape, dtype, f"c{i}")
         allin += [x.__zexpr__() for x in chunk.a.ravel()]
         written[cc] = chunk
+    ctx.input("voxels", allin)      # registered before the first write: a write that raises must still be replayable
+    for cc, chunk in written.items():
         if cfg.get("big_endian"):
             arg = SArray(chunk.a, real_np.dtype(dtype).newbyteorder(">"))       # same values, big-endian memory layout
         elif cfg.get("order") == "F":
@@ -238,7 +240,6 @@ def H_identity(ctx, cfg):
         else:
             arg = chunk
         io.write_chunk(arg, "k0", cc)
-    ctx.input("voxels", allin)
     ctx.sample(dict(chunks=len(written), voxels=len(allin), encoding=cfg["encoding"]))
     io2 = pio.PrecomputedIO(info, acc)
     for cc, chunk in written.items():
